@@ -872,7 +872,12 @@ impl<'tcx> Cx<'tcx> {
             let t = tcx.type_of(did).instantiate_identity().skip_norm_wip();
             o.s("ty", &self.ty(t));
             o.s("span", &self.span(tcx.def_span(did)));
-            if is_const && tcx.generics_of(did).count() == 0 && tcx.generics_of(tcx.parent(did)).count() == 0 {
+            let parent_generic = {
+                let par = tcx.parent(did);
+                matches!(tcx.def_kind(par), DefKind::Impl { .. } | DefKind::Trait | DefKind::Fn | DefKind::AssocFn | DefKind::Closure)
+                    && tcx.generics_of(par).count() > 0
+            };
+            if is_const && tcx.generics_of(did).count() == 0 && !parent_generic {
                 let c = Const::Unevaluated(
                     mir::UnevaluatedConst { def: did, args: ty::GenericArgs::empty(), promoted: None },
                     t,
